@@ -34,7 +34,8 @@ def gen_call(tape, pool_size, term_of, ctx_symbols, richgen, ctx, exclude=()):
              (1, "model_value"), (1, "parse_smtlib"), (1, "parse_hr"), (1, "qelim")]
     kinds = kinds + [(2, "substitute_shared"), (2, "parse_long"), (2, "foreign"), (1, "script_serialize"),
                      (2, "resimplify"), (2, "model_value_shared"), (1, "factory"), (1, "register_dwf"),
-                     (1, "declare_freshlike"), (1, "serialize_custom"), (1, "odd_constant"), (1, "lookalike_array")]
+                     (1, "declare_freshlike"), (1, "serialize_custom"), (1, "odd_constant"), (1, "lookalike_array"), (1, "closer_logic"), (2, "rewriter_long"),
+                     (1, "build_noncurrent")]
     kinds = [(w, n) for w, n in kinds if n not in exclude]
     k = tape.weighted(kinds, "call.kind")
     i = tape.draw(pool_size, "call.formula")
@@ -65,6 +66,13 @@ def gen_call(tape, pool_size, term_of, ctx_symbols, richgen, ctx, exclude=()):
         # the user declares (if it does not exist yet) a symbol whose name a fresh-name template
         # could produce later
         spec["name"] = "FV%d" % tape.rint(2, 9, "freshlike.n")
+    if k == "closer_logic":
+        # the closest supported logic, asked with a temporary collection (a new list object each time)
+        spec["supported"] = [tape.choice(CLOSER_LOGICS, "closer.sup") for _ in range(tape.rint(1, 4, "closer.n"))]
+        spec["logic"] = tape.choice(CLOSER_LOGICS, "closer.logic")
+    if k == "rewriter_long":
+        # a client keeps ONE normaliser object and uses it for several formulas
+        spec["which"] = tape.choice(["prenex", "nnf"], "rewriter.which")
     if k == "lookalike_array":
         # array types over a user sort that is merely named like a built-in sort, and over that built-in sort
         spec["which"] = tape.choice(["user", "builtin"], "lookalike.which")
@@ -72,7 +80,7 @@ def gen_call(tape, pool_size, term_of, ctx_symbols, richgen, ctx, exclude=()):
     if k == "odd_constant":
         # a number given in a Python type the constructor does not accept (or does it?): the answer
         # must not depend on whether an equal constant happens to exist already
-        spec["ctor"] = tape.choice(["Int", "Int", "Real"], "oddc.ctor")
+        spec["ctor"] = tape.choice(["Int", "Int", "Real", "BV"], "oddc.ctor")
         spec["value"] = tape.choice(["True", "False", "1.0", "2.0", "Fraction(2)", "0.0"], "oddc.value")
     if k == "serialize_custom":
         spec["printer"] = tape.choice(["custom", "default", "custom"], "hr.printer")
@@ -198,8 +206,28 @@ def perform(env, spec, f, term, user_symbols):
         v = {"True": True, "False": False, "1.0": 1.0, "2.0": 2.0, "Fraction(2)": Fraction(2), "0.0": 0.0}[spec["value"]]
         if spec["ctor"] == "Real" and not isinstance(v, bool):
             v = bool(v)         # floats and Fractions are documented spellings of a Real
-        c = getattr(mgr, spec["ctor"])(v)
+        if spec["ctor"] == "BV":
+            mgr.BV(int(v), 4)   # (the plain spelling may exist already: that must not matter)
+            c = mgr.BV(v, 4)
+        else:
+            c = getattr(mgr, spec["ctor"])(v)
         return ["constant", str(c.get_type()), str(c.constant_value()), type(c.constant_value()).__name__]
+    if k == "closer_logic":
+        import pysmt.logics as L
+        sup = [L.get_logic_by_name(n) for n in spec["supported"]]      # a temporary list
+        lg = L.get_logic_by_name(spec["logic"])
+        res = L.get_closer_logic(sup, lg)
+        if res not in sup or not (lg <= res):
+            return ("closer-logic-wrong", "get_closer_logic(%s, %s) = %s" % (spec["supported"], spec["logic"], res))
+        return ["closer", str(res)]
+    if k == "rewriter_long":
+        obj = spec["_rewriter"]
+        return obj.normalize(f) if spec["which"] == "prenex" else obj.convert(f)
+    if k == "build_noncurrent":
+        # the term built through the manager of an environment that is not the current one
+        other = spec["_other_env"]
+        g = bp.build(term, other)
+        return ["built", g in other.formula_manager]
     if k == "lookalike_array":
         import pysmt.typing as T
         from dsim.canon import tkey
@@ -396,6 +424,7 @@ def declare_freshlike(env, spec):
     return "declared"
 
 
+CLOSER_LOGICS = ["QF_LIA", "QF_LRA", "QF_BV", "QF_UFLIRA", "LRA", "QF_AUFBV", "QF_IDL", "QF_RDL", "UFLIRA", "QF_UFLIA"]
 FACTORY_LOGICS = ["QF_LIA", "QF_LRA", "QF_BV", "QF_UFLIRA", "LRA", "QF_AUFBV"]
 
 
